@@ -61,7 +61,7 @@ def main(chk):
             return
         exes[tag] = exe
     nb = 8 if quick else 64
-    per = 60 if quick else 400
+    per = 200 if quick else 400
 
     def one(i):
         seed = str(env.SEED * 1000 + i)
@@ -148,7 +148,7 @@ def main(chk):
     rnd = env.rng('c19-mod')
     lines = ['I 0']
     # width-homogeneous regions: region k (1024 bytes each) is only accessed with width k
-    for step in range(400 if quick else 4000):
+    for step in range(1500 if quick else 4000):
         n, kind, w, t = rnd.choice(names)
         base = {1: 1024, 2: 2048, 4: 4096, 8: 8192}[w]
         a = base + rnd.randrange(0, 1024 - w, w)
